@@ -47,9 +47,9 @@ pub mod unicode_input;
 mod unit;
 mod unit_registry;
 pub mod value;
-mod vm;
 #[cfg(feature = "verif")]
 pub mod verif;
+mod vm;
 
 use std::borrow::Cow;
 
